@@ -392,6 +392,9 @@ def _is_single_expr(text):
 # layouts
 # --------------------------------------------------------------------------
 
+WS_ONLY = '\ufffe<blanks only>'       # placeholder for a separator line of blanks (deeper than the indentation)
+
+
 class Layout(object):
     """how a program is written down as a docstring"""
 
@@ -509,7 +512,12 @@ class Layout(object):
                 lines.extend(['', 'prose line %d.' % si, ''])
                 labels.extend([('text', si)] * 3)
             elif sep < self.prose_prob + self.blank_prob:
-                lines.append('')
+                # an empty line, or one that holds blanks only (what an auto-indenting editor leaves behind)
+                if rng.random() < 0.3:
+                    lines.append(WS_ONLY)
+                    features.add('whitespace-only-separator')
+                else:
+                    lines.append('')
                 labels.append(('text', si))
             separated = si < len(stmts) - 1 and sep < self.prose_prob + self.blank_prob
             if self.reindent_prob and (wl is not None or separated) and rng.random() < self.reindent_prob:
@@ -521,7 +529,7 @@ class Layout(object):
                                  if not separated else 'reindent-after-separator')
                 shift = new
         ind = ' ' * self.base_indent
-        body = [ind + ln if ln else ln for ln in lines]
+        body = [(ind + '   ') if ln == WS_ONLY else (ind + ln if ln else ln) for ln in lines]
         head = []
         if self.wrapper == 'google':
             body = ['    ' + ln if ln else ln for ln in body]
